@@ -141,10 +141,14 @@ class Flow:
         d = self.d
         if self.on_stmt:
             self.on_stmt(st, s)
-        head = d.copy(s)
-        exits: list = []
+        # the states that enter the loop are kept apart from what comes round the back edge: widening
+        # is applied to the back-edge part only, so a trace-partitioned domain still tells "first
+        # iteration" from "after at least one iteration" at the head (one level of loop peeling)
+        entry = d.copy(s)
+        rest = None
+        head = d.copy(entry)
         result_breaks: list = []
-        for iteration in range(6):
+        for iteration in range(8):
             frame = {'break': [], 'continue': []}
             self._loops.append(frame)
             if test is not None:
@@ -155,12 +159,13 @@ class Flow:
             self._loops.pop()
             back = self._joinall([body_out] + frame['continue'])
             result_breaks = frame['break']
-            new_head = self._join(d.copy(head), back)
-            if new_head is None or d.leq(new_head, head):
+            new_rest = self._join(d.copy(rest) if rest is not None else None, back)
+            if new_rest is None or (rest is not None and d.leq(new_rest, rest)):
                 break
-            if iteration >= 2:
-                new_head = d.widen(head, new_head)
-            head = new_head
+            if iteration >= 2 and rest is not None:
+                new_rest = d.widen(rest, new_rest)
+            rest = new_rest
+            head = self._join(d.copy(entry), d.copy(rest))
         if test is not None:
             exit_state = d.assume(test, d.copy(head), False)
         else:
